@@ -73,6 +73,10 @@ class Gen(object):
                 arr = ('arr', r.choice(['{1,2}', '{3;4;5}', 'v_arr', 'A1:B2', '{1,2;3,4}']))
                 other = self.err() if r.random() < 0.7 else self.num(d - 1, True)
                 return ('b', r.choice('+-*/'), arr, other) if r.random() < 0.5 else ('b', r.choice('+-*/'), other, arr)
+            if r.random() < 0.06:
+                # text that is no number meets an erroneous operand: the error is the operand that is an error value, on whichever side it stands
+                txt = ('s', r.choice(['abc', 'x y', '', 'TRUE', '1,5', 'n/a']))
+                return ('b', r.choice('+-*/'), txt, self.err()) if r.random() < 0.5 else ('b', r.choice('+-*/'), self.err(), txt)
             if r.random() < 0.08:
                 # a blank meets a possibly erroneous operand
                 other = self.err() if r.random() < 0.8 else self.num(d - 1, True)
@@ -386,6 +390,7 @@ class Check(BaseCheck):
             raise objs[CODES8[int(k)]]
         e.p.set_function('ERRR', errr)
         e.p.set_function('IDF', lambda x, *rest: x)
+        e.p.set_function('SELFEVAL', lambda x: e.p.parse('1+%d' % int(x))['result'])
         for i, c in enumerate(CODES8):
             e.p.set_variable('ev_' + LETTERS[i].lower(), objs[c])
 
@@ -512,7 +517,10 @@ class Check(BaseCheck):
             if k < 0.3:
                 f2 = '%s+(%s)' % (code, f) if rnd.random() < 0.5 else '(%s)+%s' % (f, code)
             elif k < 0.5:
-                f2 = rnd.choice(['IFERROR(%s,1)', 'ISERROR(%s)', 'IFNA(%s,2)', 'SUM(1,%s)', '-%s', '%s=1', '%s&"a"', 'IDF(%s)', '{1,%s}', '(%s)']) % code
+                f2 = rnd.choice(['IFERROR(%s,1)', 'ISERROR(%s)', 'IFNA(%s,2)', 'SUM(1,%s)', '-%s', '%s=1', '%s&"a"', 'IDF(%s)', '{1,%s}', '(%s)',
+                                 # ... also when something later in the formula evaluates another formula on this very parser
+                                 'IFERROR(%s,1)+SELFEVAL(2)', 'ISERROR(%s)&SELFEVAL(1)', 'IF(TRUE,7,%s)+SELFEVAL(3)', 'SUM(SELFEVAL(1),IFERROR(%s,1),SELFEVAL(2))', 'ERROR.TYPE(%s)*SELFEVAL(1)',
+                                 'IFNA(%s,2)+A1+SELFEVAL(1)', 'SELFEVAL(1)+IFERROR(%s,1)']) % code
             else:
                 import re
                 nums = list(re.finditer(r'(?<![A-Za-z0-9."$])\d+(?![A-Za-z0-9."(])', f))
